@@ -1,6 +1,6 @@
-import CardVerif.Spec.Symmetry
-import CardVerif.Spec.Strength
-import CardVerif.Model.Misc
+import CardModel.Spec.Symmetry
+import CardModel.Spec.Strength
+import CardModel.Model.Misc
 import CardVerif.Props.C06
 import CardVerif.Proofs.ListLemmas
 import Mathlib.Data.List.Perm.Basic
